@@ -21,4 +21,33 @@ PROPS["C05"] = {
     "assumptions": ["voter ids unique (C07 next_config_wellformed)", "uint64 modelled as Nat (indexes far below 2^64)"],
 }
 
+PROPS["C07"] = {
+    "lean_module": "RaftVerif.Props.C07",
+    "theorems": [
+        T("C07.next_config_delta_le_one_voter", "voter sets of a configuration and its successor differ at most on the named server"),
+        T("C07.touches_only_target", "every other server entry is carried over unchanged, all five commands"),
+        T("C07.next_config_wellformed", "results have non-empty unique ids and addresses and at least one voter"),
+        T("C07.stale_prev_index_rejected", "a stale prevIndex is refused"),
+        T("C07.adjacent_config_majorities_intersect", "quorums of adjacent configurations intersect (Finset, quorumSize = n/2+1)"),
+    ],
+    "engines": [
+        {"engine": "nextconfig", "bin": "h1", "quick": ["-n", "20000"], "thorough": ["-n", "400000"]},
+    ],
+    "assumptions": ["server ids/addresses modelled as naturals (0 = empty string)"],
+}
+
+PROPS["C19"] = {
+    "lean_module": "RaftVerif.Props.C19",
+    "theorems": [
+        T("C19.logcache_refines_store", "for every backend meeting two StoreLogs laws, every capacity and operation list (failures anywhere), LogCache answers exactly as the backend alone"),
+        T("C19.logcache_refines_inmem", "the instance for the InmemStore model used by the correspondence run"),
+        T("C19.cache_inv_step", "the cache invariant (a slot never lies about the backend, entries sit only in slot index % cap) is inductive"),
+    ],
+    "engines": [
+        {"engine": "logcache", "bin": "h1", "quick": ["-n", "20000"], "thorough": ["-n", "60000"]},
+    ],
+    "assumptions": ["backend write failures are atomic (as in the suite's errorStore)", "callers do not mutate a *Log after StoreLogs (the cache keeps the pointer)",
+                    "a transient backend read error can be masked by a cache hit (inherent to a cache)"],
+}
+
 HOOK_COMMITS = ["dfecdf5"]
